@@ -59,6 +59,8 @@ def c16_grammars(ctx):
         gs.append(('lit%d' % part, dict(terms=terms, nonterms=[dict(name='e', tag='v1')], precs=[('left', [0])], rules=rules, start=0)))
     for i in range(3 if ctx.quick else 12):
         gs.append(('long%d' % i, genrun.fix_tags(gram.long_rule_grammar(rnd))))      # rules with 10-13 symbols: $10 .. $13 next to $1
+    for i in range(3 if ctx.quick else 12):
+        gs.append(('dup%d' % i, genrun.fix_tags(gram.dup_rule_grammar(rnd))))        # a production written twice, productions after the copy
     # the line feed as a character literal (a quote, a real line break, a quote - the only way to write it), used in a rule
     lf = gram.from_text('lines: line | lines line ; line: x N | x + x N')
     for t in lf['terms']:
